@@ -52,6 +52,8 @@ def gen_cases(tier, seed):
         pick = cs[::step][:per]
         if sub == "c10":
             pick = [c for c in cs if c.get("kind") == "synthetic" and c.get("lang") == "C"][:per] + [c for c in cs if c.get("kind") == "real"][:2]
+            # (a mesh of thousands of q-points: block-wise processing in the glue or the kernel only shows there)
+            pick += [c for c in cs if c.get("kind") == "synthetic" and c.get("lang") == "C" and c.get("large") and c not in pick][:1]
         if sub == "c09":
             pick = [c for c in cs if c.get("kind") == "phonon"][:per]
         if sub == "c06":
@@ -74,6 +76,7 @@ def gen_cases(tier, seed):
             want = [next((c for c in near if c["dense"]), None), next((c for c in near if not c["dense"]), None)]
             want = [c for c in want if c is not None]
             pick = want + [c for c in pick if c not in want][:max(0, per - len(want))]
+            pick += [c for c in cs if c.get("family") == "large" and c["dense"]][:1]  # a supercell of more than a thousand atoms
         if sub == "c11":
             # grid-index arithmetic of the tetrahedron kernels: meshes with n0 < n1, n0 > n1 and n1 != n2 must be among the cases
             real = [c for c in cs if c.get("kind") == "real"]
